@@ -115,8 +115,16 @@ def is_spd(theta):
         return False
 
 
+# A comparison of log-densities is skipped as ill-conditioned only when its derived tolerance (which grows with the
+# condition number of the MRF) exceeds this absolute cap; below it the comparison is made with that tolerance.
+ILL_CAP = 5e-2
+
+
 def density_tol(nw, mag, kappa):
-    return 64 * nw * nw * EPS * mag + 1e3 * nw * EPS * kappa
+    """R2 tolerance for one log-density: rounding of the quadratic form and constant (term magnitudes) plus the
+    log-determinant, whose legitimate variation between correct factorisations is about n*eps*kappa (an
+    eigenvalue-based one loses eps*kappa on the smallest eigenvalue); 30x margin on that."""
+    return 64 * nw * nw * EPS * mag + 30 * nw * EPS * kappa
 
 
 # ---------------------------------------------------------------------------
@@ -308,7 +316,7 @@ def c05(out, sample_points=None, rec=None):
                     rec.skip("c05_model_not_spd")
                 continue
             kappa = ref.cond_number(th)
-            if 1e3 * nw * EPS * kappa > 1e-3:
+            if 30 * nw * EPS * kappa > ILL_CAP:
                 # value comparison is ill-conditioned; finiteness still required
                 if not np.all(np.isfinite(tab[:, k])):
                     f.append(("C05:nonfinite", f"round {p['round']} cluster {k}: table has non-finite values "
@@ -339,7 +347,7 @@ def c05(out, sample_points=None, rec=None):
     labels = fs["labels"]
     k = len(thetas)
     usable = all(th is not None and is_spd(th) and np.all(np.isfinite(mu)) and
-                 1e3 * nw * EPS * ref.cond_number(th) <= 1e-3
+                 30 * nw * EPS * ref.cond_number(th) <= ILL_CAP
                  for j, (mu, th) in enumerate(zip(means, thetas)) if j in set(labels))
     if not usable:
         if rec is not None:
@@ -454,7 +462,7 @@ def c06(out, rec=None):
         if not is_spd(thetas[j]):
             continue
         kappa = ref.cond_number(thetas[j])
-        if 1e3 * nw * EPS * kappa > 1e-3:
+        if 30 * nw * EPS * kappa > ILL_CAP:
             continue
         vals, tols = [], []
         for i in idx:
